@@ -40,6 +40,12 @@ func genRaceChains(seed int64, n int) []raceChain {
 		ch := raceChain{fac: rng.Intn(len(raceFacs))}
 		for k := rng.Intn(9); k > 0; k-- {
 			m := methodNames[rng.Intn(len(methodNames))]
+			switch rng.Intn(10) {
+			case 0:
+				m = "ExtMsgf"
+			case 1:
+				m = "ExtMsgfForeign" // all goroutines derive from the package's own ErrUnknown
+			}
 			st := raceStep{site: g.randSite(), call: sites.Call{Method: m, Src: randArg(rng), DTag: randArg(rng), Format: randArg(rng)}}
 			for _, e := range randElems(rng) {
 				st.call.Elems = append(st.call.Elems, e.Value())
